@@ -10,7 +10,10 @@
 EXTENDS Integers, Sequences, FiniteSets, TLC
 NoKey == [has |-> FALSE, kind |-> "", ord |-> 0]
 K(kind, ord) == [has |-> TRUE, kind |-> kind, ord |-> ord]
-El(id, kind, ord, cls, key) == [id |-> id, kind |-> kind, ord |-> ord, cls |-> cls, key |-> key]
+El(id, kind, ord, cls, key) == [id |-> id, kind |-> kind, ord |-> ord, cls |-> cls, key |-> key, items |-> <<>>]
+\* an array element with explicit scalar members <<[kind, ord]>> (arrays compare member-wise, then by length)
+ArrEl(id, cls, items) == [id |-> id, kind |-> "arr", ord |-> 0, cls |-> cls, key |-> NoKey, items |-> items]
+Sc(kind, ord) == [kind |-> kind, ord |-> ord]
 Ok(s) == [r |-> "ok", out |-> s]
 Err == [r |-> "err", out |-> <<>>]
 Unspec == [r |-> "unspec", out |-> <<>>]
@@ -20,6 +23,22 @@ Unspec == [r |-> "unspec", out |-> <<>>]
 Orderable == {"int", "str", "arr"}
 Cmpb(k1, r1, k2, r2) == k1 = k2 /\ (k1 \in Orderable \/ (k1 = "xarr" /\ r1 = r2))
 Comparable(a, b) == Cmpb(a.kind, a.ord, b.kind, b.ord)
+\* the partial order of values: -1, 0, 1, or 2 = not comparable.  Scalars of one orderable kind by rank; arrays member by
+\* member (an incomparable pair of members makes the arrays incomparable), then by length; maps never; mixed kinds never
+Sign(n) == IF n < 0 THEN -1 ELSE IF n > 0 THEN 1 ELSE 0
+ScalarCmp(a, b) == IF a.kind # b.kind \/ a.kind \notin {"int", "str"} THEN 2 ELSE Sign(a.ord - b.ord)
+RECURSIVE LexCmp(_, _)
+LexCmp(s, t) == IF s = <<>> /\ t = <<>> THEN 0 ELSE IF s = <<>> THEN -1 ELSE IF t = <<>> THEN 1
+                ELSE LET c == ScalarCmp(s[1], t[1]) IN IF c # 0 THEN c ELSE LexCmp(Tail(s), Tail(t))
+ElCmp(a, b) == IF a.kind = "arr" /\ b.kind = "arr" THEN LexCmp(a.items, b.items)
+               ELSE IF a.kind = b.kind /\ a.kind \in {"int", "str"} THEN Sign(a.ord - b.ord) ELSE 2
+KeyCmp(a, b) == ScalarCmp(a.key, b.key)
+\* stable insertion sort by a comparator (x goes before the first later element it is not greater than... kept stable:
+\* inserting from the right, x goes BEFORE elements it is <= to)
+RECURSIVE SortC(_, _)
+InsC(C(_, _), s, x) == LET RECURSIVE Ins(_) Ins(t) == IF t = <<>> THEN <<x>> ELSE IF C(x, Head(t)) <= 0 THEN <<x>> \o t ELSE <<Head(t)>> \o Ins(Tail(t)) IN Ins(s)
+SortC(C(_, _), xs) == IF xs = <<>> THEN <<>> ELSE InsC(C, SortC(C, Tail(xs)), Head(xs))
+NonNone(xs) == SelectSeq(xs, LAMBDA x : x.kind # "none")
 \* stable insertion sort of positions by a rank function
 RECURSIVE InsertBy(_, _, _)
 InsertBy(Rank(_), s, x) == IF s = <<>> THEN <<x>> ELSE IF Rank(x) < Rank(Head(s)) THEN <<x>> \o s ELSE <<Head(s)>> \o InsertBy(Rank, Tail(s), x)
@@ -28,20 +47,24 @@ RECURSIVE StableSortBy(_, _)
 InsertLeft(Rank(_), s, x) == LET RECURSIVE Ins(_) Ins(t) == IF t = <<>> THEN <<x>> ELSE IF Rank(x) <= Rank(Head(t)) THEN <<x>> \o t ELSE <<Head(t)>> \o Ins(Tail(t)) IN Ins(s)
 StableSortBy(Rank(_), xs) == IF xs = <<>> THEN <<>> ELSE InsertLeft(Rank, StableSortBy(Rank, Tail(xs)), Head(xs))
 \* `sort`: a permutation in non-decreasing order, input order kept among equals; refuses mutually incomparable inputs
+\* none values are tolerated (their position in the result is not demanded: r = "ok-nn" carries the non-none part), but
+\* the other values must still be mutually comparable
 Sort(xs) ==
+  LET nn == NonNone(xs) IN
   IF Len(xs) <= 1 THEN Ok(xs)
-  ELSE IF \E i \in 1..Len(xs) : xs[i].kind = "none" THEN Unspec            \* none is tolerated by the engine: position not demanded
-  ELSE IF \A i, j \in 1..Len(xs) : Comparable(xs[i], xs[j]) THEN LET R(x) == x.ord IN Ok(StableSortBy(R, xs))
-  ELSE Err
+  ELSE IF \E i, j \in 1..Len(nn) : i # j /\ ElCmp(nn[i], nn[j]) = 2 THEN Err
+  ELSE IF Len(nn) < Len(xs) THEN [r |-> "ok-nn", out |-> SortC(ElCmp, nn)]
+  ELSE Ok(SortC(ElCmp, xs))
 \* `sort(attribute="k")`: every element needs the attribute; keys must be mutually comparable
 SortByKey(xs) ==
   IF xs = <<>> THEN Ok(xs)
   ELSE IF \E i \in 1..Len(xs) : xs[i].kind = "none" THEN Unspec          \* an element that is none: not demanded
   ELSE IF \E i \in 1..Len(xs) : ~xs[i].key.has THEN Err
-  ELSE IF \E i \in 1..Len(xs) : xs[i].key.kind = "none" THEN Unspec
-  ELSE IF Len(xs) = 1 THEN Ok(xs)
-  ELSE IF \A i, j \in 1..Len(xs) : Cmpb(xs[i].key.kind, xs[i].key.ord, xs[j].key.kind, xs[j].key.ord) THEN LET R(x) == x.key.ord IN Ok(StableSortBy(R, xs))
-  ELSE Err
+  ELSE LET kk == SelectSeq(xs, LAMBDA x : x.key.kind # "none") IN
+       IF Len(xs) = 1 THEN Ok(xs)
+       ELSE IF \E i, j \in 1..Len(kk) : i # j /\ KeyCmp(kk[i], kk[j]) = 2 THEN Err
+       ELSE IF Len(kk) < Len(xs) THEN [r |-> "ok-nn", out |-> SortC(KeyCmp, kk)]
+       ELSE Ok(SortC(KeyCmp, xs))
 \* `unique`: in first-occurrence order, exactly one representative of every class of equal elements
 RECURSIVE Unique(_, _)
 Unique(xs, seen) == IF xs = <<>> THEN <<>> ELSE IF Head(xs).cls \in seen THEN Unique(Tail(xs), seen) ELSE <<Head(xs)>> \o Unique(Tail(xs), seen \cup {Head(xs).cls})
